@@ -79,6 +79,17 @@ func c10ErrClass(err error) string {
 	return "err:other:" + vh.Class(m)
 }
 
+// c10PrintName is runtime.funcNameForPrint (traceback.go): the runtime reports generic instances with their type
+// arguments replaced by "...", so that is the finest name comparison the runtime's own table allows for them.
+func c10PrintName(name string) string {
+	i := strings.IndexByte(name, '[')
+	j := strings.LastIndexByte(name, ']')
+	if i < 0 || j <= i {
+		return name
+	}
+	return name[:i] + "[...]" + name[j+1:]
+}
+
 // c10FuncTruth asks the runtime which function starts at pc.
 func c10FuncTruth(name string, pc uintptr) string {
 	if pc == 0 || pc+1 == 0 {
@@ -97,11 +108,19 @@ func c10FuncTruth(name string, pc uintptr) string {
 			break
 		}
 	}
-	if n == 0 || last.Function == "" {
+	if n == 0 {
 		return "rt:none"
 	}
+	if last.Function == "" {
+		// runtime quirk (symtab.go funcName): the function whose name sits at offset 0 of the name table is reported
+		// nameless (the first function of the text segment in practice); only its entry can be compared
+		if last.Entry == pc {
+			return "entry-only"
+		}
+		return fmt.Sprintf("rt:@%#x", last.Entry)
+	}
 	res := "exact"
-	if last.Entry != pc || last.Function != name {
+	if last.Entry != pc || last.Function != c10PrintName(name) {
 		res = fmt.Sprintf("rt:%s@%#x", c10Esc(last.Function), last.Entry)
 	}
 	if want, ok := zzC10Funcs[name]; ok {
@@ -121,6 +140,10 @@ func c10VarTruth(name string, addr uintptr) string {
 			return "exact+ptr"
 		}
 		return fmt.Sprintf("ptr=%#x", uintptr(want))
+	}
+	// a text symbol looked up through the ELF symbol table: the runtime's function table is the truth
+	if t := c10FuncTruth(name, addr); t == "exact" || t == "exact+ptr" {
+		return "exact-func"
 	}
 	return "unk"
 }
